@@ -112,7 +112,30 @@ func c05Snapshot(c *Ctx) {
 					c.R.Cond(ok, rule, fname+": clears txStart", pos, "the snapshot is dropped only after the storage commit succeeded",
 						"the snapshot is dropped although the commit may have failed: the rollback SQLite performs next restores nothing ("+why+")")
 				default:
-					c.R.Bad(rule, fname+": clears txStart", pos, "the transaction snapshot is dropped outside Commit-after-success and Rollback (e.g. in a deferred function): a failed commit can no longer be rolled back")
+					// a read-only table holds no writes of its own (every write is refused), so its
+					// transaction may simply end: accepted when the store, or every call of the
+					// function it sits in, lies on the true side of the table's ReadOnly flag
+					roF := an.LookupField(c.P, "", "S3Options", "ReadOnly")
+					isRO := func(v ssa.Value) bool { return roF != nil && an.FieldOfLoad(v) == roF }
+					guarded := an.GuardedByValue(an.Edge{From: st.Block()}, isRO, true)
+					if !guarded {
+						sites := 0
+						all := true
+						for _, caller := range c.P.RepoFuncs(an.LibraryPkg) {
+							for _, call := range an.Calls(caller) {
+								if call.Common().StaticCallee() != fn {
+									continue
+								}
+								sites++
+								if !an.GuardedByValue(an.Edge{From: call.Block()}, isRO, true) {
+									all = false
+								}
+							}
+						}
+						guarded = sites > 0 && all
+					}
+					c.R.Cond(guarded, rule, fname+": clears txStart", pos, "the snapshot of a read-only table's transaction is dropped (nothing can have been written)",
+						"the transaction snapshot is dropped outside Commit-after-success and Rollback, and not only for a read-only table (e.g. in a deferred function): a failed commit can no longer be rolled back")
 				}
 				continue
 			}
